@@ -89,6 +89,13 @@ def sim_stats(out, stats):
     stats["sim_threads"] = stats.get("sim_threads", 0) + len(s.threads)
     stats["jobs"] = stats.get("jobs", 0) + out.exec_stats.jobs
     stats["max_threads"] = max(stats.get("max_threads", 0), len(s.threads))
+    if out.exec_stats.pools:
+        # scheduling "faults" that actually happened in this execution (measured, not configured)
+        stats["fault_worker_count"] = stats.get("fault_worker_count", 0) + 1
+        if out.exec_stats.reordered():
+            stats["fault_reorder"] = stats.get("fault_reorder", 0) + 1
+        if out.exec_stats.stalled():
+            stats["fault_worker_stall"] = stats.get("fault_worker_stall", 0) + 1
     stats["rng_calls"] = stats.get("rng_calls", 0) + out.rng.calls
     worker_draws = sum(v for t, v in out.rng.by_thread.items() if t != 0)
     stats["rng_calls_in_workers"] = stats.get("rng_calls_in_workers", 0) + worker_draws
